@@ -29,6 +29,8 @@ REPO = os.environ.get("VERIF_REPO", "/repo")
 HARNESS_DIR = os.path.join(VERIF, "harness")
 SCRATCH_ROOT = os.environ.get("VERIF_SCRATCH", "/var/tmp")
 MEM_CAP_KB = int(float(os.environ.get("VERIF_MEM_GB", "12")) * 1024 * 1024)
+# concrete-playback generation reruns one harness without formula slicing: alone, with a larger cap
+PLAYBACK_MEM_CAP_KB = int(float(os.environ.get("VERIF_PLAYBACK_MEM_GB", "40")) * 1024 * 1024)
 CORES = os.cpu_count() or 4
 
 GEOM_FEATURES = {
@@ -185,6 +187,7 @@ class MemWatch(threading.Thread):
         self.stop = False
         self.killed = []
         self.peak_kb = 0
+        self.cap_kb = MEM_CAP_KB
 
     def run(self):
         me = os.getpid()
@@ -199,7 +202,7 @@ class MemWatch(threading.Thread):
                     pid, _, pgid, rss, comm = int(f[0]), int(f[1]), int(f[2]), int(f[3]), f[4]
                     if pgid == pg and comm.startswith("cbmc"):
                         self.peak_kb = max(self.peak_kb, rss)
-                        if rss > MEM_CAP_KB:
+                        if rss > self.cap_kb:
                             os.kill(pid, signal.SIGKILL)
                             self.killed.append(pid)
             except Exception:
@@ -438,6 +441,7 @@ def main():
                     problems.append(f"{h.name}@{geom}: no result reported by Kani (harness not found?)")
         # ---- replay violations
         nviol = 0
+        watch.cap_kb = PLAYBACK_MEM_CAP_KB
         for h, geom, rec in violations:
             descr = "; ".join(sorted({f"{c['description']} @ {c.get('function')}" for c in rec["violating"]}))[:600]
             log(f"[{prop}] counterexample in {h.name} (geometry {geom}): {descr}")
